@@ -315,6 +315,12 @@ def gen_cxx(rng, nclasses, nfuncs, nsubst=1):
             defs.append("template void %s::%s<int>(int);" % (c, m))
             defs.append("template void %s::%s<%s*>(%s*);" % (c, m, c, c))
             want.add("::".join(full + [m]))
+        # conversion operators: uftrace's simplified form is operator(cast)
+        if rng.random() < 0.4:
+            for ct, cv in rng.sample([("int", ""), ("const char*", " const"), ("bool", " const"), ("long long", ""), ("double", " const &")], 2):
+                decls.append("operator %s()%s;" % (ct, cv))
+                defs.append("%s%s::operator %s()%s { return 0; }" % (head, q, ct, cv))
+            want.add("::".join(full + ["operator(cast)"]))
         # a nested class
         nested = []
         if rng.random() < 0.3:
@@ -361,6 +367,16 @@ def gen_cxx(rng, nclasses, nfuncs, nsubst=1):
     out.append("namespace %s {" % top)
     while nclasses > 0 or nfuncs > 0:
         emit_scope(1, [top])
+    # literal operators (simplified form operator""), an anonymous namespace (_GLOBAL__N_1) and static functions
+    for suf, ty in (("_" + ids.new(1, 5), "long double"), ("_" + ids.new(1, 5), "unsigned long long"), ("_" + ids.new(1, 5), "const char*")):
+        out.append("%s operator\"\" %s(%s x) { return x; }" % (ty, suf, ty))
+    want.add("::".join([top, 'operator""']))
+    an_c, an_m, an_f, st_f, user = ids.new(), ids.new(), ids.new(), ids.new(), ids.new()
+    out.append("namespace { struct %s { void %s(int); }; void %s::%s(int) {} void %s(char*) {} }" % (an_c, an_m, an_c, an_m, an_f))
+    out.append("static void %s(long) {}" % st_f)
+    out.append("void %s() { %s h; h.%s(1); %s(0); %s(1); }" % (user, an_c, an_m, an_f, st_f))
+    want.update(["::".join([top, "_GLOBAL__N_1", an_c, an_m]), "::".join([top, "_GLOBAL__N_1", an_f]),
+                 "::".join([top, st_f]), "::".join([top, user])])
     for _ in range(nsubst):
         sub = ids.new()
         out.append("namespace %s {" % sub)
@@ -406,6 +422,17 @@ def strip_targs(s):
     return "".join(out)
 
 
+def uftrace_form(name):
+    """the simplifications utils/demangle.c makes by design: conversion operators print as operator(cast), literal
+    operators as operator"", the anonymous namespace as _GLOBAL__N_1"""
+    name = name.replace("(anonymous namespace)", "_GLOBAL__N_1")
+    name = re.sub(r'operator"" \w+', 'operator""', name)
+    m = re.search(r"(^|::)operator (?!new|delete)", name)
+    if m:
+        name = name[:m.end() - 1] + "(cast)"
+    return name
+
+
 def cxx_corpus(ctx, nclasses, nfuncs, nsubst=1):
     """compile a generated translation unit with g++ and clang++; returns list of (mangled, want|None)"""
     rng = ctx.rng
@@ -432,7 +459,7 @@ def cxx_corpus(ctx, nclasses, nfuncs, nsubst=1):
     res = []
     unmatched = 0
     for m, f in zip(ms, filt):
-        red = strip_targs(f)
+        red = uftrace_form(strip_targs(f))
         if red in want:
             res.append((m.encode(), red.encode(), sorted(names[m])))
         else:
@@ -520,6 +547,55 @@ def std_corpus(ctx):
     return res
 
 
+RUST_ESC = {"SP": "@", "BP": "*", "RF": "&", "LT": "<", "GT": ">", "LP": "(", "RP": ")", "C": ",", "u20": " ", "u22": '"',
+            "u27": "'", "u2b": "+", "u3b": ";", "u3d": "=", "u5b": "[", "u5d": "]", "u7b": "{", "u7d": "}", "u7e": "~"}
+
+
+def rust_legacy_expected(m):
+    """expected simplified form of a rustc legacy symbol, following utils/demangle.c's documented conventions:
+    the 17h<hash> component is dropped, `$XX$` escapes and `..` are translated, a leading `_` of a component is kept
+    and ` as Trait` inside `<T as Trait>` is dropped.  None when the name is outside this (no oracle then)."""
+    if not m.startswith("_ZN") or not m.endswith("E"):
+        return None
+    comps, i, body = [], 3, m[:-1]
+    while i < len(body):
+        j = i
+        while j < len(body) and body[j].isdigit():
+            j += 1
+        if j == i:
+            return None
+        k = int(body[i:j])
+        if j + k > len(body):
+            return None
+        comps.append(body[j:j + k])
+        i = j + k
+    if len(comps) < 2 or not re.fullmatch(r"h[0-9a-f]{16}", comps[-1]):
+        return None
+    outs = []
+    for c in comps[:-1]:
+        o, pos = "", 0
+        while True:
+            d = c.find("$", pos)
+            if d < 0:
+                if ".." in c[pos:] and pos > 0:
+                    return None                   # text after the last escape is copied raw
+                if ".." in c and pos == 0:
+                    return None
+                o += c[pos:]
+                break
+            o += c[pos:d].replace("..", "::")
+            if c.startswith("$u20$as$u20$", d):
+                o += ">"
+                break
+            e = c.find("$", d + 1)
+            if e < 0 or c[d + 1:e] not in RUST_ESC:
+                return None
+            o += RUST_ESC[c[d + 1:e]]
+            pos = e + 1
+        outs.append(o)
+    return "::".join(outs)
+
+
 def rust_corpus(ctx, nfn):
     rng = ctx.rng
     ids = Ident(rng)
@@ -550,40 +626,52 @@ def rust_corpus(ctx, nfn):
                 want["::".join(path + [f])] = 1
     while len(want) < nfn:
         emit_mod(1, [crate])
+    # traits, generic impls, closures: names with $LT$ .. $GT$, $u20$as$u20$, `..`, {{closure}}
+    tr, st, pr, ar, gf, cf, dr = ("T" + ids.new(), "Q" + ids.new(), "P" + ids.new(), ids.new().lower(), ids.new().lower(),
+                                  ids.new().lower(), ids.new().lower())
+    lines += [
+        "pub trait %s { fn %s(&self) -> u32; fn dflt(&self) -> u32 { 7 } }" % (tr, ar),
+        "pub struct %s(pub u32); pub struct %s<T>(pub T, pub T);" % (st, pr),
+        "impl %s for %s { #[inline(never)] fn %s(&self) -> u32 { self.0 * self.0 } }" % (tr, st, ar),
+        "impl<T: Copy + Into<u64>> %s for %s<T> { #[inline(never)] fn %s(&self) -> u32 { (self.0.into() + self.1.into()) as u32 } }" % (tr, pr, ar),
+        "impl<'a> %s for &'a [u8] { #[inline(never)] fn %s(&self) -> u32 { self.len() as u32 } }" % (tr, ar),
+        "impl %s for (u8, i16) { #[inline(never)] fn %s(&self) -> u32 { 3 } }" % (tr, ar),
+        "impl %s for *const u8 { #[inline(never)] fn %s(&self) -> u32 { 4 } }" % (tr, ar),
+        "impl %s for [u32; 4] { #[inline(never)] fn %s(&self) -> u32 { 5 } }" % (tr, ar),
+        "#[inline(never)] pub fn %s<T: core::fmt::Debug>(t: T) -> usize { core::mem::size_of_val(&t) }" % gf,
+        "#[inline(never)] pub fn %s(v: &[u32]) -> u32 { v.iter().map(|x| x + 1).filter(|x| *x > 2).sum() }" % cf,
+        "#[inline(never)] pub fn %s() -> u32 { let p = %s(1u32, 2u32); let s: &[u8] = b\"ab\"; let a = [1u32; 4]; let q = 0 as *const u8;"
+        " %s(3).%s() + p.%s() + s.%s() + (1u8, 2i16).%s() + q.%s() + a.%s() + %s(1u8) as u32 + %s(\"x\") as u32 + %s(&[1, 2, 3]) + %s(1).dflt() }"
+        % (dr, pr, st, ar, ar, ar, ar, ar, ar, gf, gf, cf, st),
+    ]
     d = os.path.join(ctx.scratch, "rust")
     os.makedirs(d, exist_ok=True)
     rs = os.path.join(d, "lib.rs")
     open(rs, "w").write("#![allow(non_snake_case, non_camel_case_types, dead_code)]\n" + "\n".join(lines) + "\n")
     obj = os.path.join(d, "lib.o")
-    rc, o, e = sh(["rustc", "--crate-type=lib", "--crate-name", crate, "--emit=obj", "-o", obj, rs], timeout=120)
+    rc, o, e = sh(["rustc", "--crate-type=lib", "--crate-name", crate, "--emit=obj", "-C", "opt-level=0", "-o", obj, rs], timeout=120)
     if rc != 0:
-        ctx.log("rustc not usable here (%s); Rust names come from the hand-made list only" % e[-200:].strip())
+        ctx.log("rustc not usable here (%s); Rust names come from the hand-made list only" % e[-300:].strip())
         return []
     rc, o, e = sh(["nm", "--defined-only", obj], timeout=60)
     res = []
+    plain = escaped = 0
     for ln in o.splitlines():
         f = ln.split()
         if not f or not f[-1].startswith("_ZN"):
             continue
         m = f[-1]
-        comps, i, body = [], 3, m
-        ok = True
-        while i < len(body) and body[i] != "E":
-            j = i
-            while j < len(body) and body[j].isdigit():
-                j += 1
-            if j == i:
-                ok = False
-                break
-            k = int(body[i:j])
-            comps.append(body[j:j + k])
-            i = j + k
-        if not ok or not comps or not re.fullmatch(r"h[0-9a-f]{16}", comps[-1]):
-            res.append((m.encode(), None, ["rustc"]))
-            continue
-        q = "::".join(comps[:-1])
-        res.append((m.encode(), q.encode() if q in want else None, ["rustc"]))
-    ctx.extra["corpus_rust"] = {"symbols": len(res), "with_oracle": sum(1 for r in res if r[1] is not None)}
+        q = rust_legacy_expected(m)
+        if q is not None and "$" not in m and ".." not in m and q.startswith(crate + "::") and q not in want \
+                and not any(q.startswith(w + "::") for w in want) and q.split("::")[-1] not in (gf, cf, dr, "dflt"):
+            q = None                                  # a plain path the generator did not declare
+        if q is not None:
+            if "$" in m:
+                escaped += 1
+            else:
+                plain += 1
+        res.append((m.encode(), q.encode() if q is not None else None, ["rustc"]))
+    ctx.extra["corpus_rust"] = {"symbols": len(res), "with_oracle": plain + escaped, "with_escapes": escaped}
     return res
 
 
